@@ -29,7 +29,7 @@ def generate(tier, seed):
         nb = len(pkg['filters'])
         src = fitcase.gen_source(rng, nb, flags=[1] * nb if nb < 3 else None)
         ext = fitcase.gen_ext(rng, [f['wav'] for f in pkg['filters']])
-        cases.append(dict(pkg=pkg, src=src, ext=ext))
+        cases.append(dict(pkg=pkg, src=src, ext=ext, rerun=(k % 3 == 1)))
     return cases
 
 
@@ -48,9 +48,21 @@ def impl(case):
     from sedfitter.convolve import convolve_model_dir
     pkg = case['pkg']
     out = {}
+    def conv(d):
+        if case.get('rerun'):      # the directory already holds convolved files of other filters with the same names: they must be replaced
+            import copy
+            decoy = copy.deepcopy(pkg)
+            for f in decoy['filters']:
+                f['resp'] = [x * 3.0 + 1.0 for x in reversed(f['resp'])]
+                f['normalize'] = False
+                f['wav'] = f['wav'] * 2.0
+            convolve_model_dir(d, pkgcase.make_filters(decoy))
+            convolve_model_dir(d, pkgcase.make_filters(pkg), overwrite=True)
+        else:
+            convolve_model_dir(d, pkgcase.make_filters(pkg))
     with tempfile.TemporaryDirectory() as d1:
         pkgcase.write_v1(d1, pkg)
-        convolve_model_dir(d1, pkgcase.make_filters(pkg))
+        conv(d1)
         out['v1'] = {f['name']: pkgcase.read_convolved(d1, f['name']) for f in pkg['filters']}
         try:
             out['fit_v1'] = _fit(d1, pkg, case)
@@ -60,7 +72,7 @@ def impl(case):
         return out
     with tempfile.TemporaryDirectory() as d2:
         pkgcase.write_v2(d2, pkg)
-        convolve_model_dir(d2, pkgcase.make_filters(pkg))
+        conv(d2)
         out['v2'] = {f['name']: pkgcase.read_convolved(d2, f['name']) for f in pkg['filters']}
         for mm in (True, False):
             try:
